@@ -93,10 +93,11 @@ func (s *Sim) setupGRPC(e *Env, register func(grpc.ServiceRegistrar)) {
 	g := &grpcCarrier{}
 	g.ln = newListener(&net.TCPAddr{IP: net.IPv4(10, 0, 0, 3), Port: 9090})
 	var opts []grpc.ServerOption
-	if s.prog.Cfg.TUnaryInt {
+	tint := s.prog.Cfg.TIntOnly == "" || s.prog.Cfg.TIntOnly == TGRPC
+	if s.prog.Cfg.TUnaryInt && tint {
 		opts = append(opts, grpc.UnaryInterceptor(s.serverUnaryInt("T@"+TGRPC)))
 	}
-	if s.prog.Cfg.TStreamInt {
+	if s.prog.Cfg.TStreamInt && tint {
 		opts = append(opts, grpc.StreamInterceptor(s.serverStreamInt("T@"+TGRPC)))
 	}
 	g.srv = grpc.NewServer(opts...)
